@@ -1,5 +1,6 @@
-(* Props/C10Known.v — refutations for the C10 flags claimed `true` in Actual/OrchHistActual.v (symbolic rule
-   instance).  Rendered with real files they are in corpus/C10 and replayed on the implementation on every run. *)
+(* Props/C10Known.v — both C10 findings were repaired (fix commits f7c62f4 and 8b82489): no refutation is left; the old
+   witnesses are kept as REGRESSION examples that now meet the specification under the vector claimed for the current tree
+   (symbolic rule instance).  Rendered with real files they are in corpus/C10 and must pass on every run. *)
 From TL Require Import Lib.Base Lib.GenTypes Gen.OrchHistGen Model.OrchHist Model.OrchHistRun Actual.OrchHistActual.
 
 Definition x_dirs : list (nat * list nat) := [(0, [0; 1; 2; 3]); (1, [0; 1]); (2, [2; 3])].
@@ -7,17 +8,17 @@ Definition x_fs : fsys := [(0, 0); (1, 1); (2, 2); (3, 3)].
 Definition only_api : oquirks := Build_oquirks false false false false true.
 Definition only_dry10 : oquirks := Build_oquirks true false false false false.
 
-(* Linter.lint(file) returns no finalize() findings, `thailint <cmd> file` does *)
-Theorem C10_api_file_refuted :
-  sym_cli [] [] 9 x_dirs only_api x_fs [0] [] <> [sym_api [] [] 9 x_dirs only_api x_fs (TFile 0)]
-  /\ sym_cli [] [] 9 x_dirs orch_actual x_fs [0] [] <> [sym_api [] [] 9 x_dirs orch_actual x_fs (TFile 0)].
-Proof. split; vm_compute; discriminate. Qed.
+(* q_api_file_no_finalize: Linter.lint(file) and `thailint <cmd> file` return the same, finalize() findings included *)
+Example C10_api_file_regression :
+  sym_cli [] [] 9 x_dirs orch_actual x_fs [0] [] = [sym_api [] [] 9 x_dirs orch_actual x_fs (TFile 0)]
+  /\ sym_cli [] [] 9 x_dirs only_api x_fs [0] [] = [sym_api [] [] 9 x_dirs only_api x_fs (TFile 0)]
+  /\ sym_cli [] [] 9 x_dirs orch_actual x_fs [0] [] = [Build_out [TPer 0 (Some 0)] [TRep 0 1 [(0, 0)]] [TRep 1 0 [(0, 0)]] [TRep 2 0 [(0, 0)]]].
+Proof. repeat split; vm_compute; reflexivity. Qed.
 
-(* two directory arguments: the second finalize() reports the first directory's blocks again, the library API on
-   each directory does not *)
-Theorem C10_cli_two_dirs_refuted :
-  sym_cli [] [] 9 x_dirs only_dry10 x_fs [] [(1, [0; 1]); (2, [2; 3])]
-  <> map (sym_api [] [] 9 x_dirs only_dry10 x_fs) [TDir 1 [0; 1]; TDir 2 [2; 3]]
-  /\ sym_cli [] [] 9 x_dirs orch_actual x_fs [] [(1, [0; 1]); (2, [2; 3])]
-  <> map (sym_api [] [] 9 x_dirs orch_actual x_fs) [TDir 1 [0; 1]; TDir 2 [2; 3]].
-Proof. split; vm_compute; discriminate. Qed.
+(* q_dry_keeps_storage: two directory arguments are reported like Linter.lint on each directory *)
+Example C10_cli_two_dirs_regression :
+  sym_cli [] [] 9 x_dirs orch_actual x_fs [] [(1, [0; 1]); (2, [2; 3])]
+  = map (sym_api [] [] 9 x_dirs orch_actual x_fs) [TDir 1 [0; 1]; TDir 2 [2; 3]]
+  /\ sym_cli [] [] 9 x_dirs only_dry10 x_fs [] [(1, [0; 1]); (2, [2; 3])]
+  = map (sym_api [] [] 9 x_dirs only_dry10 x_fs) [TDir 1 [0; 1]; TDir 2 [2; 3]].
+Proof. split; vm_compute; reflexivity. Qed.
